@@ -34,9 +34,11 @@ RULE = ('algebra: every ordered pair of the library units, every ordered triple 
         'expression of depth <= 2 of the grammar {a*b, a/b, a**k, a**(1/n), number*a, a/number, '
         '1/a} over the basis; non-trivial = accepted expression that is not a bare library name '
         '(pairs: compatible pair of two different units).  history: every sequence of look-ups of '
-        'length <= L over the 24-name alphabet, each replayed on a fresh library; a state is the '
+        'length <= 3 over the 24-name alphabet (thorough: plus every sequence of length 4 over 16 '
+        'of the names), each replayed on a fresh library; a state is the '
         'canonical content of unit table + cache after the history; non-trivial = history that adds '
-        'at least one prefixed unit to the table; each history is one trace')
+        'at least one prefixed unit to the table; traces = histories of the maximal length of their '
+        'tree on which every look-up agreed with the fresh-library look-up')
 LEVEL_TEXT = ('All look-up histories up to the depth bound over an alphabet of collision-prone names '
               'are executed against the real module from a fresh unit library and compared step by '
               'step with a history-free look-up (states/transitions/traces reported); the algebraic '
@@ -63,7 +65,7 @@ ASSUMPTIONS = [
     'openmdao.utils.units.import_library(text of unit_library.ini) yields a fresh library: it '
     'rebinds _UNIT_LIB and _UNIT_CACHE, the only mutable state of the module',
 ]
-MIN_NONTRIVIAL = {'quick': 50000, 'thorough': 350000}
+MIN_NONTRIVIAL = {'quick': 50000, 'thorough': 140000}
 CHUNK = 1
 
 # ----------------------------------------------------------------------------------------------
@@ -285,6 +287,10 @@ HIST_ALPHABET = ['m', 'am', 'dam', 'dm', 'mdam', 'mm', 'km', 'mkm', 'd', 'ad', '
                  'h', 'ah', 'dah', 'as', 'das', 'min', 'amin', 'damin', 'ag', 'dag', 'dam/am',
                  'furlong']
 
+# sub-alphabet for the depth-4 histories (drops second copies of a pattern and plain controls)
+HIST_DEEP = ['m', 'am', 'dam', 'mdam', 'km', 'mkm', 'd', 'ad', 'dad', 'as', 'das', 'min', 'amin',
+             'damin', 'dam/am', 'furlong']
+
 _BASIS_Q = ['m', 's', 'kg', 'ft', 'N', 'min', 'km', 'ug', 'degC', 'degF']
 _BASIS_T = ['m', 's', 'kg', 'ft', 'N', 'min', 'km', 'ug', 'degC', 'degF', 'deg', 'percent']
 # prefixed names that collide (used in the fresh-library-per-expression composite group)
@@ -342,16 +348,17 @@ def cases(tier, seed):
     for e1 in d1:
         out.append({'kind': 'comp', 'e1': e1, 'tier': tier})
     out.append({'kind': 'collide'})
-    L = prm['hist_len']
+    # histories: every history of length <= 3 over the 24 names; thorough adds every history of
+    # length 4 over the 16 collision-relevant names (HIST_DEEP)
     nA = len(HIST_ALPHABET)
-    if L <= 3:
-        for i in range(nA):
-            out.append({'kind': 'hist', 'prefix': [i], 'maxlen': L})
-    else:
-        for i in range(nA):
-            for j in range(nA):
-                out.append({'kind': 'hist', 'prefix': [i, j], 'maxlen': L})
-        out.append({'kind': 'hist', 'prefix': [], 'maxlen': 1})   # the length-1 histories
+    for i in range(nA):
+        out.append({'kind': 'hist', 'prefix': [i], 'maxlen': 3})
+    if prm['hist_len'] >= 4:
+        deep = [HIST_ALPHABET.index(n) for n in HIST_DEEP]
+        for i in deep:
+            for j in deep:
+                out.append({'kind': 'hist', 'prefix': [i, j], 'maxlen': 4, 'minlen': 4,
+                            'alpha': deep})
     return out
 
 
@@ -814,14 +821,14 @@ def run_history(acc, hist, states=None):
     return ok
 
 
-def check_hist_subtree(acc, prefix, maxlen, case_id):
+def check_hist_subtree(acc, prefix, maxlen, case_id, minlen=1, alpha=None):
     states = set()
-    nA = len(HIST_ALPHABET)
+    alpha = list(alpha) if alpha is not None else list(range(len(HIST_ALPHABET)))
     transitions = traces = 0
     plen = len(prefix)
-    lens = range(max(plen, 1), maxlen + 1)
+    lens = range(max(plen, minlen, 1), maxlen + 1)
     for L in lens:
-        for tail in itertools.product(range(nA), repeat=L - plen):
+        for tail in itertools.product(alpha, repeat=L - plen):
             hist = list(prefix) + list(tail)
             ok = run_history(acc, hist, states)
             transitions += 1
@@ -910,7 +917,8 @@ def check_case(case):
         return acc.result(counters={'transitions': 1})
     if kind == 'hist':
         cid = '_'.join(str(i) for i in case['prefix']) + 'L%d' % case['maxlen']
-        cnt = check_hist_subtree(acc, case['prefix'], case['maxlen'], cid)
+        cnt = check_hist_subtree(acc, case['prefix'], case['maxlen'], cid, case.get('minlen', 1),
+                                 case.get('alpha'))
         return acc.result(counters=cnt, sample={
             'kind': 'hist', 'first': [HIST_ALPHABET[i] for i in case['prefix']],
             'maxlen': case['maxlen'], 'histories': cnt['transitions']})
